@@ -306,6 +306,30 @@ struct Ledger : public MemoryManager {
 };
 
 // one lifetime script on one ledger; returns the number of handler callbacks of the last run
+// grammar script for the ledger lane (field gops = "load:<entity>:<dtd|xsd>:<0|1>,lock,unlock,..."): loadGrammar calls (accepted, refused because the
+// key is already cached, refused because the pool is locked) before the parses; whatever the pool does with the grammar, the ledger must end empty
+static void gLoad(CapSAXParser* p, InputSource& s, Grammar::GrammarType t, bool c) { p->loadGrammar(s, t, c); }
+static void gLoad(CapSAX2* p, InputSource& s, Grammar::GrammarType t, bool c) { p->loadGrammar(s, t, c); }
+static void gLoad(CapDOMParser* p, InputSource& s, Grammar::GrammarType t, bool c) { p->loadGrammar(s, t, c); }
+static void gLoad(CapDOMLS* p, InputSource& s, Grammar::GrammarType t, bool c) { Wrapper4InputSource in(&s, false); p->loadGrammar(&in, t, c); }
+template <class P> static void runGops(P* p, const Req& r, XMLGrammarPoolImpl* pool, std::string& note) {
+    std::vector<std::string> ops = split(get(r, "gops"), ',');
+    for (size_t i = 0; i < ops.size(); i++) {
+        std::vector<std::string> o = split(ops[i], ':');
+        if (o.empty() || o[0].empty()) continue;
+        if (o[0] == "lock") { if (pool) pool->lockPool(); }
+        else if (o[0] == "unlock") { if (pool) pool->unlockPool(); }
+        else if (o[0] == "load" && o.size() >= 4) {
+            Req::const_iterator it = r.find("ent:" + o[1]); if (it == r.end()) continue;
+            MemBufInputSource src((const XMLByte*)it->second.data(), it->second.size(), X("mem:/" + o[1]).c(), false);
+            Dump d;
+            try { gLoad(p, src, o[2] == "xsd" ? Grammar::SchemaGrammarType : Grammar::DTDGrammarType, o[3] == "1"); }
+            XV_CATCH_ALL(d)
+            if (d.out.compare(0, 12, "EXC\tFOREIGN\n") == 0 || d.out.find("\nEXC\tFOREIGN\n") != std::string::npos) note += "FOREIGN-EXCEPTION ";
+        }
+    }
+}
+
 static long ledgerScript(const Req& r, Ledger& L, int mode, long arg, std::string& note) {
     std::string api = get(r, "api", "sax2"); Feat f(get(r, "feat"));
     const std::string& doc = r.find("doc")->second;
@@ -322,6 +346,7 @@ static long ledgerScript(const Req& r, Ledger& L, int mode, long arg, std::strin
             CapSAXParser* p1 = api == "sax1" ? new (&L) CapSAXParser(0, &L, pool) : 0;
             CapSAX2* p2 = api == "sax2" ? new (&L) CapSAX2(&L, pool) : 0;
             if (p1) { configClassic(*p1, f, &sm); p1->setXMLEntityResolver(&res); } else { configSAX2(*p2, f, &sm); p2->setXMLEntityResolver(&res); }
+            if (p1) runGops(p1, r, pool, note); else runGops(p2, r, pool, note);
             for (long k = 0; k < reuse; k++) {
                 Dump d; bool last = k == reuse - 1; if (mode == 2 && last) d.throwAt = arg;
                 Sax1Dump h1(d); Sax2Dump h2(d);
@@ -340,6 +365,7 @@ static long ledgerScript(const Req& r, Ledger& L, int mode, long arg, std::strin
             delete p1; delete p2;
         } else if (api == "dom") {
             CapDOMParser* p = new (&L) CapDOMParser(0, &L, pool); configDOM(*p, f, &sm); p->setXMLEntityResolver(&res);
+            runGops(p, r, pool, note);
             for (long k = 0; k < reuse; k++) {
                 Dump d; bool last = k == reuse - 1; Sax1Dump eh(d); p->setErrorHandler(&eh);
                 ChunkSource src(doc, std::vector<size_t>(), sysx.c());
@@ -358,6 +384,7 @@ static long ledgerScript(const Req& r, Ledger& L, int mode, long arg, std::strin
         } else {   // domls
             CapDOMLS* p = new (&L) CapDOMLS(0, &L, pool); configDOMLS(*p, f, &sm);
             LSErr eh; p->getDomConfig()->setParameter(XMLUni::fgDOMErrorHandler, &eh); p->getDomConfig()->setParameter(XMLUni::fgDOMResourceResolver, &lres);
+            runGops(p, r, pool, note);
             for (long k = 0; k < reuse; k++) {
                 Dump d; ChunkSource src(doc, std::vector<size_t>(), sysx.c()); Wrapper4InputSource in(&src, false);
                 try { p->parse(&in); }
